@@ -110,7 +110,14 @@ func runC02(args []string) int {
 		s := genStream(rg, &cfg, st)
 		data := s.bytes()
 		rs := readerSpec{Data: data, Sched: makeSched(rg, rg.intn(9), len(data)), Ewd: rg.bool()}
-		impl, _, sr, ok := decodeAndJudge(r, w, streamCase{s, rs}, optSet{}, "", true)
+		// "Decode" is Decode under any options: a third of the streams is decoded with a logger and / or the
+		// unknown-item options (what the options add is C16's subject; the values must be the wire's here too)
+		var os optSet
+		if i%3 == 1 {
+			os = optSet{Logger: rg.chance(2, 3), UnkF: rg.bool(), UnkM: rg.bool()}
+			r.hist("decoded_with_options_" + os.String())
+		}
+		impl, _, sr, ok := decodeAndJudge(r, w, streamCase{s, rs}, os, "", true)
 		if !ok {
 			return 2
 		}
